@@ -43,8 +43,9 @@ type iterSpec struct {
 }
 
 type hop struct {
-	Kind    string    `json:"kind"`           // new | append | join | setid | publish | iter | open
-	Keep    []int     `json:"keep,omitempty"` // open: the selected entries of replica Src (indices into the list of appended entries), in map order
+	Kind    string    `json:"kind"`            // new | append | join | setid | publish | iter | open
+	Keep    []int     `json:"keep,omitempty"`  // open: the selected entries of replica Src (indices into the list of appended entries), in map order
+	Heads   []int     `json:"heads,omitempty"` // open: LogOptions.Heads (entries of replica Src); empty = NewLog finds the heads
 	R       int       `json:"r"`
 	Src     int       `json:"src,omitempty"`
 	LogID   string    `json:"logid,omitempty"`
@@ -83,13 +84,14 @@ func sortFnOf(name string) iface.EntrySortFn {
 }
 
 type replica struct {
-	log    *ipfslog.IPFSLog
-	ac     accesscontroller.Interface
-	sort   string
-	logID  string
-	ident  string
-	keyed  bool
-	opened bool // opened over a selection of another replica's entries (not part of the finale exchange)
+	log       *ipfslog.IPFSLog
+	ac        accesscontroller.Interface
+	sort      string
+	logID     string
+	ident     string
+	keyed     bool
+	opened    bool // opened over a selection of another replica's entries (not part of the finale exchange)
+	namedHead bool // opened with LogOptions.Heads naming an entry that another supplied entry names (known finding K5)
 }
 
 type world struct {
@@ -562,6 +564,19 @@ func (h *histRun) exec() {
 					openID = o.LogID // LogOptions.ID is the caller's: a log may be opened under another id than its entries carry
 				}
 				lopts := &ipfslog.LogOptions{ID: openID, SortFn: sortFnOf(o.Sort), AccessController: ac, Entries: om}
+				seenHead := map[string]bool{}
+				for _, k := range o.Heads {
+					c := cidAt(w, k).String()
+					if e, ok := held.Get(c); ok && !seenHead[c] {
+						seenHead[c] = true
+						lopts.Heads = append(lopts.Heads, e)
+					}
+				}
+				consistent := len(lopts.Heads) == 0
+				if !consistent {
+					want := unreferenced(om.Slice())
+					consistent = eqStrings(sortedCopy(hashesOf(lopts.Heads)), want)
+				}
 				if src.keyed {
 					lopts.IO = w.sealedIO()
 				}
@@ -571,12 +586,12 @@ func (h *histRun) exec() {
 				if err != nil {
 					panic(err)
 				}
-				w.reps = append(w.reps, &replica{log: l, ac: ac, sort: o.Sort, logID: openID, ident: o.Ident, keyed: src.keyed, opened: true})
+				w.reps = append(w.reps, &replica{log: l, ac: ac, sort: o.Sort, logID: openID, ident: o.Ident, keyed: src.keyed, opened: true, namedHead: !consistent})
 				ob.R = len(w.reps) - 1
 				h.opens++
 				// a selection that leaves entries out is causally open, like what a bounded join leaves; so is a log
 				// whose entries carry another id than its own
-				unbounded[ob.R] = unbounded[o.Src] && om.Len() == held.Len() && openID == src.logID
+				unbounded[ob.R] = unbounded[o.Src] && om.Len() == held.Len() && openID == src.logID && consistent
 			case "append":
 				rep := w.reps[o.R]
 				before := rep.log.GetEntries().Slice()
@@ -685,7 +700,11 @@ func (h *histRun) exec() {
 					if o.Src == o.R || src.logID != rep.logID || len(snaps[o.Src].entries) == 0 {
 						after := snapLog(rep.log)
 						if len(after.entries) != len(snaps[o.R].entries) || !eqStrings(after.values, snaps[o.R].values) {
-							h.fail("C01", "neutral-join", "C01:neutral-join-changed-log", "joining self/empty/foreign-id log changed the log", i)
+							key := "C01:neutral-join-changed-log"
+							if rep.namedHead {
+								key += ":head-named-by-supplied-entry"
+							}
+							h.fail("C01", "neutral-join", key, "joining self/empty/foreign-id log changed the log", i)
 						}
 					}
 				}
@@ -1320,7 +1339,11 @@ func (h *histRun) coq() string {
 			if oid == "" {
 				oid = openSrcID(h.ops, i)
 			}
-			op = fmt.Sprintf("OOpen %s %s %s %s %s %s", coqNat(o.Src), coqNList(keep), coqN(r.logids[oid]), coqN(r.keys.rank(string(w.idents[o.Ident].PublicKey))), sortCoq(o.Sort), coqNList(deny))
+			var hh []int
+			for _, k := range o.Heads {
+				hh = append(hh, r.hashes.rank(cidAt(w, k).String()))
+			}
+			op = fmt.Sprintf("OOpen %s %s %s %s %s %s %s", coqNat(o.Src), coqNList(keep), coqNList(hh), coqN(r.logids[oid]), coqN(r.keys.rank(string(w.idents[o.Ident].PublicKey))), sortCoq(o.Sort), coqNList(deny))
 		case "setid":
 			op = fmt.Sprintf("OSetIdentity %s %s", coqNat(o.R), coqN(r.keys.rank(string(w.idents[o.Ident].PublicKey))))
 		case "publish":
